@@ -1,0 +1,6 @@
+//go:build !verif
+
+package verifhook
+
+// At is a no-op unless built with the `verif` tag.
+func At(string, ...interface{}) {}
